@@ -1,4 +1,6 @@
 import Avfs.FS.Step
+import Avfs.FS.WF
+import Avfs.FS.Init
 /- line protocol for the MemFS model: `fs <view> <call> <args…>`, `fs new`, `fs <view> dump` -/
 namespace Avfs.FS
 open Avfs.Path
@@ -71,15 +73,6 @@ def dumpGraph (s : Store) (root : Ino) : String :=
     | _ => l
   "dump " ++ " ".intercalate (lines.reverse.map fix)
 
-def newState : FSState :=
-  let root : View := { root := 0, cwd := [SL], uid := 0, gid := 0, admin := true, umask := 0 }
-  let st : FSState := { store := initStore 0 0, views := [(0, root)], handles := [], nextView := 1, nextHandle := 0 }
-  let mk (st : FSState) (p : String) (perm : Nat) : FSState :=
-    let st1 := (step st 0 (.mkdirAll (Bytes.ofString p) perm)).1
-    (step st1 0 (.chmod (Bytes.ofString p) perm)).1
-  let st := mk (mk (mk st "/home" 0o700) "/root" 0o700) "/tmp" 0o777
-  (step st 0 (.setUMask 0o022)).1
-
 def pb (s : String) : Option Bytes := Bytes.ofHex s
 
 def parseFOp : List String → Option FOp
@@ -131,11 +124,61 @@ def parseCall : List String → Option Call
   | "file" :: h :: rest => do pure (.file (← h.toNat?) (← parseFOp rest))
   | _ => none
 
+/-- parse one token of a graph dump (`k:d:perm:uid:gid:mT[name>j,…]`, `k:f:perm:uid:gid:mT:nlink:id:data`,
+    `k:l:perm:uid:gid:mT:link`) into a heap cell -/
+def parseDumpTok (t : String) : Option (Ino × Node) :=
+  let (hd, ents) := match t.splitOn "[" with
+    | [hd, tl] => (hd, some (tl.dropEnd 1).toString)
+    | _ => (t, none)
+  let f := hd.splitOn ":"
+  let octNat (x : String) : Option Nat := x.toList.foldlM (fun acc c => if '0' ≤ c ∧ c ≤ '7' then some (acc * 8 + (c.toNat - 48)) else none) 0
+  match f with
+  | k :: kind :: perm :: uid :: gid :: _mt :: rest =>
+    match k.toNat?, octNat perm, uid.toInt?, gid.toInt? with
+    | some k, some perm, some uid, some gid =>
+      let m : Meta := ⟨perm, uid, gid, none⟩
+      if kind == "d" then
+        let body := ents.getD ""
+        let es := if body.isEmpty then [] else body.splitOn ","
+        let ch := es.filterMap fun e =>
+          match e.splitOn ">" with
+          | [nm, c] => (match Bytes.ofHex nm, c.toNat? with | some n, some ci => some (n, ci) | _, _ => none)
+          | _ => none
+        some (k, .dir m ch)
+      else if kind == "f" then
+        match rest with
+        | [nl, id, data] =>
+          (match nl.toInt?, id.toNat?, Bytes.ofHex data with
+           | some nl, some id, some d => some (k, .file m d nl id)
+           | _, _, _ => none)
+        | _ => none
+      else if kind == "l" then
+        match rest with
+        | [l] => (Bytes.ofHex l).map fun lb => (k, .symlink m lb)
+        | _ => none
+      else none
+    | _, _, _, _ => none
+  | _ => none
+
+/-- `wfcheck <dump tokens…>`: evaluate `wfCheck` on a dumped graph (used on the implementation's own graph) -/
+def wfOfDump (toks : List String) : String :=
+  match toks.mapM parseDumpTok with
+  | none => "bad-dump"
+  | some cells =>
+    let lastId := cells.foldl (fun acc (_, n) => match n with | .file _ _ _ id => max acc id | _ => acc) 0
+    let s : Store := { nodes := cells, next := cells.length, lastId := lastId }
+    s!"ok {wfCheck s 0}"
+
 def showView (v : View) : String := s!"view {v.root} {Bytes.toHex v.cwd} {v.uid} {v.gid} {v.admin} {oct v.umask}"
 
 def exec (st : FSState) (args : List String) : FSState × String :=
   match args with
-  | ["new"] => (newState, "ok")
+  | ["new"] => (initState, "ok")
+  | "wfcheck" :: "dump" :: toks => (st, wfOfDump toks)
+  | [vid, "wf"] =>
+    match vid.toNat?.bind st.view with
+    | some v => (st, s!"ok {wfCheck st.store v.root}")
+    | none => (st, "bad-op")
   | [vid, "dump"] =>
     match vid.toNat?.bind st.view with
     | some v => (st, dumpGraph st.store v.root)
